@@ -26,7 +26,7 @@ theorem reprfacts_tie : Generated.C03.reprFacts = Expected.C03.reprFacts := by d
 
 /-- tie: the `constOp` map of cfg.go (comparisons included, b3f92e0), for each folding function the go/constant entry
     point and token it uses, whether it wraps its operands in `constant.ToInt`, the Go operator of each typed arm, the
-    integer-quotient switch of `quoConst`, the `constToken` table of typecheck.go, and the twenty-six `CheckFacts` about
+    integer-quotient switch of `quoConst`, the `constToken` table of typecheck.go, and the twenty-seven `CheckFacts` about
     the checks that the repairs of the third round put around the folds (constExpr / constOverflow framing of both
     fold sites, the 512-bit and 1074 limits, the shift clamp, the exact integer quotient, no early return for
     quotients, the form of zeroConst, untyped-stays-untyped, floating-point shift counts, checked conversions of
@@ -522,21 +522,25 @@ example :
     Spec.declGo 0 none (.bin .mul (.conv .f32 (.flt ⟨1, 10⟩)) (.conv .f32 (.int 3))) = .ok (.flt ⟨5033165, 16777216⟩, .f32) := by
   decide +kernel
 
-/-! ### the difference that is left: the type of a constant shift of a floating-point constant (F03-23) -/
+/-! ### the type of a constant shift of a floating-point constant (F03-23, fixed by 287aa9d) -/
 
-/-- F03-23: the node of a constant shift keeps the untyped floating-point type of its left operand (Go: "if the left
-    operand of a constant shift expression is an untyped constant, the result is an integer constant"): `117.0 << 1`
-    is 234 on both sides but untyped float for the interpreter, so `^(117.0 << 1)` is rejected (Go: −235), while
-    `var c0 = 1.0 << 3` is 8 of type int on both sides because `defaultType` looks at the kind of the value
-    (the decision seed C03-4 moved) -/
-theorem float_shift_type_witness :
+/-- F03-23: "if the left operand of a constant shift expression is an untyped constant, the result is an integer
+    constant": `117.0 << 1` is 234 of type untyped int on both sides, `^(117.0 << 1)` is −235, `var c0 = 1.0 << 3` is 8
+    of type int; with the facts before 287aa9d the node kept the untyped floating-point type of its left operand and
+    `^(117.0 << 1)` was rejected -/
+theorem float_shift_type_regression :
+    let FB : Facts := { Expected.C03.facts with eval := Expected.C03.evalFactsBeforeR6 }
     (evalY Expected.C03.facts { iota := 0 } none (.bin .shl (.flt ⟨117, 1⟩) (.int 1))).bind (fun n => .ok (n.rv, n.ty)) =
-      .ok (.c (.int 234), .u .float) ∧
+      .ok (.c (.int 234), .u .int) ∧
     Spec.evalGo 0 (.bin .shl (.flt ⟨117, 1⟩) (.int 1)) = .ok ⟨.int 234, .u .int⟩ ∧
-    evalY Expected.C03.facts { iota := 0 } none (.un .bitNot (.par (.bin .shl (.flt ⟨117, 1⟩) (.int 1)))) = .reject ∧
+    (evalY Expected.C03.facts { iota := 0 } none (.un .bitNot (.par (.bin .shl (.flt ⟨117, 1⟩) (.int 1))))).bind
+      (fun n => .ok (n.rv, n.ty)) = .ok (.c (.int (-235)), .u .int) ∧
     Spec.evalGo 0 (.un .bitNot (.par (.bin .shl (.flt ⟨117, 1⟩) (.int 1)))) = .ok ⟨.int (-235), .u .int⟩ ∧
     varDeclY Expected.C03.facts none (.bin .shl (.flt ⟨1, 1⟩) (.int 3)) = .ok (.int 8, .i .int) ∧
-    Spec.declGo 0 none (.bin .shl (.flt ⟨1, 1⟩) (.int 3)) = .ok (.int 8, .i .int) := by decide
+    Spec.declGo 0 none (.bin .shl (.flt ⟨1, 1⟩) (.int 3)) = .ok (.int 8, .i .int) ∧
+    (evalY FB { iota := 0 } none (.bin .shl (.flt ⟨117, 1⟩) (.int 1))).bind (fun n => .ok (n.rv, n.ty)) =
+      .ok (.c (.int 234), .u .float) ∧
+    evalY FB { iota := 0 } none (.un .bitNot (.par (.bin .shl (.flt ⟨117, 1⟩) (.int 1)))) = .reject := by decide
 
 /-! ### conversion of a constant to float32: one rounding (seed C03-3) -/
 
